@@ -417,7 +417,7 @@ pub fn gen20(tier: &str, r: &mut Rng, emit: &mut dyn FnMut(Vec<u64>)) {
     // 9. MANY options (the count, not the size, is what grows): around every power of two of the count up to 2^12 and
     // around the default message size, empty and one-byte values, alone, with a payload, and with a malformed tail
     let mut counts: Vec<usize> = vec![100, 255, 256, 257, 1279, 1280, 1281, 1285];
-    if thorough { for k in [7u32, 9, 10, 11, 12] { for d in [-1i64, 0, 1] { counts.push(((1i64 << k) + d) as usize); } } counts.push(5000); }
+    if thorough { for k in [7u32, 9, 10, 11] { for d in [-1i64, 0, 1] { counts.push(((1i64 << k) + d) as usize); } } }
     for &n in counts.iter() { for hb in [0x00u8, 0x10, 0x01] {
         let mut b = vec![0x40u8, 0x01, 0, 1];
         for i in 0..n { b.push(hb); if hb & 15 == 1 { b.push(i as u8); } }
